@@ -38,7 +38,7 @@ Section EmitPace.
 Variables (freq : N) (f : Z -> res) (try : bool) (ocaps : list nat).
 Let c := emit_cfg freq f try ocaps.
 
-Definition emit_mp_reachable : state -> Prop := mp_reachable c no_env.
+Definition emit_mp_reachable : state -> Prop := mp_reachable c all_outs no_env.
 
 Local Notation tail l := (tail_of f try l).
 Local Notation R s := (N.of_nat (rounds s)).
@@ -76,11 +76,11 @@ Qed.
 
 (* in a settled state the goroutine sleeps (timer not due) or has returned *)
 Lemma pace_settled_ctl s :
-  panicked s = false -> settled c s -> pace s ->
+  panicked s = false -> settled c all_outs s -> pace s ->
   wc (ws s 0) = WDone \/
   (exists u, wc (ws s 0) = WSleep u false false (tail (Z.of_nat (rounds s - 1))) /\ (now s < u)%N).
 Proof.
-  intros Hp [[Hq _] Hnr] H.
+  intros Hp [[Hq _] Hnr] H. apply no_receive_on_all in Hnr.
   assert (H0 : 0 < par c) by (simpl; lia).
   destruct (stuck_waits c s 0 (Hq 0 H0)) as [Hd|i Hc Hs Hb Hcl'|a t Hc|eof k v rest Hc Hr Hcl' Hcn
                                            |eof k v rest Hc Hr Hcl'|eof k rest Hc Hb Hcl' Hcn|u sel eof rest Hc Ht Hsel].
@@ -167,12 +167,13 @@ Qed.
 
 Theorem pinv_mp_reachable s : emit_mp_reachable s -> pinv s.
 Proof.
-  apply mp_reachable_inv.
+  revert s. apply (mp_reachable_inv c all_outs no_env pinv).
   - split; [reflexivity|]. apply PA_recv; simpl; auto.
-  - intros s0 w ch s' Hr HI Hp Hw Hs. assert (w = 0) by (simpl in Hw; lia). subst w.
-    eapply pinv_worker; eauto. apply (mp_not_cancelled c no_env s0 Hr).
-  - intros s0 s' Hr HI Hp He Hn Hcn.
-    destruct He as [i x Hi Hcl | i Hi Hcl | k t v rest Hb | k v w eof a rest Hb Hcap Hcl Hw Hc Hs0 | | | w a todo Hw Hc | Hcl Had Hcd | t Ht].
+  - intros s0 s' Hr HI Hp He.
+    destruct He as [w ch s' Hw Hs | i x Hi Hcl | i Hi Hcl | k t v rest _ Hb | k v w eof a rest _ Hb Hcap Hcl Hw Hc Hs0
+                   | | w a todo Hw Hc | Hcl Had Hcd | t Hse _ Hnt Hlt].
+    + assert (w = 0) by (simpl in Hw; lia). subst w.
+      eapply pinv_worker; eauto. apply (mp_not_cancelled c all_outs no_env s0 Hr).
     + simpl in Hi. lia.
     + simpl in Hi. lia.
     + apply pinv_frame with s0; auto.
@@ -186,23 +187,21 @@ Proof.
       * rewrite Hc in Hc'. inversion Hc'; subst. inversion H0; subst.
         apply PA_post with rest; rewrite ?Hrd; unfold s1; simpl; upd_simpl; simpl; auto.
     + exact HI.
-    + apply pinv_frame with s0; auto.
     + assert (w = 0) by (simpl in Hw; lia). subst w. destruct HI as [_ HI].
       destruct HI; congruence.
     + simpl in Hcl. discriminate.
-    + simpl in Hn. lia.
-  - (* the clock moves: only while the goroutine sleeps, and not past its deadline *)
-    intros s0 t Hr [Hl HI] Hp Hse _ Hnt Hlt.
-    set (s1 := mkS _ _ _ _ _ _ _ _ _ _).
-    assert (Hrd : rounds s1 = rounds s0) by reflexivity.
-    split; [exact Hl|].
-    destruct (pace_settled_ctl s0 Hp Hse HI) as [Hd|(u & Hc & Hu)].
-    + destruct HI as [Hc' H1|Hc' H0 H1|u Hc' H0 H1 H2 H3|rest' Hc' H0 H1|Hc' H1]; try congruence.
-      apply PA_done; rewrite ?Hrd; auto. unfold s1; simpl. lia.
-    + destruct HI as [Hc' H1|Hc' H0 H1|u' Hc' H0 H1 H2 H3|rest' Hc' H0 H1|Hc' H1]; try congruence.
-      rewrite Hc in Hc'. inversion Hc'; subst u'.
-      assert (Htu : (t <= u)%N). { apply Hnt. simpl. rewrite Hc. reflexivity. }
-      apply PA_sleep with u; rewrite ?Hrd; auto; unfold s1; simpl; lia.
+    + (* the clock moves: only while the goroutine sleeps, and not past its deadline *)
+      destruct HI as [Hl HI].
+      set (s1 := mkS _ _ _ _ _ _ _ _ _ _).
+      assert (Hrd : rounds s1 = rounds s0) by reflexivity.
+      split; [exact Hl|].
+      destruct (pace_settled_ctl s0 Hp Hse HI) as [Hd|(u & Hc & Hu)].
+      * destruct HI as [Hc' H1|Hc' H0 H1|u Hc' H0 H1 H2 H3|rest' Hc' H0 H1|Hc' H1]; try congruence.
+        apply PA_done; rewrite ?Hrd; auto. unfold s1; simpl. lia.
+      * destruct HI as [Hc' H1|Hc' H0 H1|u' Hc' H0 H1 H2 H3|rest' Hc' H0 H1|Hc' H1]; try congruence.
+        assert (Eu : u' = u) by congruence. rewrite Eu in *. clear Eu Hc'.
+        assert (Htu : (t <= u)%N). { apply Hnt. simpl. rewrite Hc. reflexivity. }
+        apply PA_sleep with u; rewrite ?Hrd; auto; unfold s1; simpl; lia.
 Qed.
 
 (* ---------- no gap: what has been received in a settled state (any clock policy) ---------- *)
@@ -286,7 +285,7 @@ Definition emit_sleeping (s : state) (n : nat) : Prop :=
   rounds s = S n /\ wc (ws s 0) = WSleep ((N.of_nat n + 1) * freq) false false (tail (Z.of_nat n)).
 
 Theorem emit_keeps_up s :
-  emit_mp_reachable s -> settled c s ->
+  emit_mp_reachable s -> settled c all_outs s ->
   (exists n, emit_sleeping s n /\ emit_calls s = n /\
              (N.of_nat n * freq <= now s < (N.of_nat n + 1) * freq)%N /\
              delivered s 0 = ok_vals f (zrange 0 n) /\ delivered s 1 = err_vals f (zrange 0 n) /\
@@ -298,12 +297,13 @@ Theorem emit_keeps_up s :
                ((N.of_nat n + 1) * freq <= now s)%N /\
                cclosed (outs s 0) = true /\ cclosed (outs s 1) = true).
 Proof.
-  intros Hm Hse. pose proof (mp_reachable_reachable c no_env s Hm) as Hr.
-  pose proof (mp_not_cancelled c no_env s Hm) as Hcn.
+  intros Hm Hse. pose proof (mp_reachable_reachable c all_outs no_env s Hm) as Hr.
+  pose proof (mp_not_cancelled c all_outs no_env s Hm) as Hcn.
   pose proof (nopanic c (emit_wf freq f try ocaps) s Hr) as Hp.
+  assert (Hnr : no_receive c s) by (apply no_receive_on_all; exact (proj2 Hse)).
   destruct (pinv_mp_reachable s Hm) as [Hl HI].
   destruct (pace_settled_ctl s Hp Hse HI) as [Hd|(u & Hc & Hu)].
-  - right. destruct (emit_done_delivered s Hr Hcn (proj2 Hse) Hd) as (n & e & Hrd & Ht & Hb & Hf & D0 & D1 & C0 & C1).
+  - right. destruct (emit_done_delivered s Hr Hcn Hnr Hd) as (n & e & Hrd & Ht & Hb & Hf & D0 & D1 & C0 & C1).
     exists n, e. unfold emit_calls. rewrite Hd.
     destruct HI as [Hc' H1|Hc' H0 H1|u Hc' H0 H1 H2 H3|rest' Hc' H0 H1|Hc' H1]; try congruence.
     repeat split; auto. rewrite Hrd in H1. lia.
@@ -312,7 +312,7 @@ Proof.
     destruct (rounds s) as [|n] eqn:Hrd; [lia|]. replace (S n - 1) with n in * by lia.
     assert (HR : N.of_nat (S n) = (N.of_nat n + 1)%N) by lia. rewrite HR in Eu. subst u.
     exists n. unfold emit_sleeping, emit_calls. rewrite Hc, Hrd.
-    destruct (emit_sleep_delivered s n _ Hr Hcn (proj2 Hse) Hc Hrd) as (D0 & D1 & Hb).
+    destruct (emit_sleep_delivered s n _ Hr Hcn Hnr Hc Hrd) as (D0 & D1 & Hb).
     repeat split; auto. lia.
 Qed.
 
@@ -320,7 +320,7 @@ Qed.
    exactly k applications have been made and every result has been received - value f(i) arrives at tick
    i+1 (with emit_not_early: not before) - unless a fail-fast Emit has returned at an earlier failing index *)
 Theorem emit_one_per_tick s k :
-  emit_mp_reachable s -> settled c s -> (0 < freq)%N -> now s = (N.of_nat k * freq)%N ->
+  emit_mp_reachable s -> settled c all_outs s -> (0 < freq)%N -> now s = (N.of_nat k * freq)%N ->
   (emit_calls s = k /\ delivered s 0 = ok_vals f (zrange 0 k) /\ delivered s 1 = err_vals f (zrange 0 k))
   \/
   (try = false /\ exists n e, n < k /\ existsb (is_err f) (zrange 0 n) = false /\ f (Z.of_nat n) = Err e /\
@@ -333,7 +333,7 @@ Proof.
 Qed.
 
 Corollary emit_one_per_tick_try s k :
-  try = true -> emit_mp_reachable s -> settled c s -> (0 < freq)%N -> now s = (N.of_nat k * freq)%N ->
+  try = true -> emit_mp_reachable s -> settled c all_outs s -> (0 < freq)%N -> now s = (N.of_nat k * freq)%N ->
   emit_calls s = k /\ delivered s 0 = ok_vals f (zrange 0 k) /\ delivered s 1 = err_vals f (zrange 0 k).
 Proof.
   intros Ht Hm Hse Hf Hk. destruct (emit_one_per_tick s k Hm Hse Hf Hk) as [H|[Hx _]]; [exact H|congruence].
@@ -341,7 +341,7 @@ Qed.
 
 (* one result per tick: while Emit runs, the number of results received is the number of elapsed ticks *)
 Theorem emit_rate s :
-  emit_mp_reachable s -> settled c s -> (0 < freq)%N -> wc (ws s 0) <> WDone ->
+  emit_mp_reachable s -> settled c all_outs s -> (0 < freq)%N -> wc (ws s 0) <> WDone ->
   N.of_nat (length (delivered s 0) + length (delivered s 1)) = (now s / freq)%N.
 Proof.
   intros Hm Hse Hf Hnd.
@@ -361,7 +361,7 @@ Definition emit_settledb (s : state) : bool :=
   | _, _ => false
   end.
 
-Lemma emit_settledb_sound s : reachable c s -> emit_settledb s = true -> settled c s.
+Lemma emit_settledb_sound s : reachable c s -> emit_settledb s = true -> settled c all_outs s.
 Proof.
   intros Hr H. unfold emit_settledb in H.
   destruct (cbuf (outs s 0)) eqn:B0; [|discriminate]. destruct (cbuf (outs s 1)) eqn:B1; [|discriminate].
@@ -374,15 +374,15 @@ Proof.
   split; [split|].
   - intros w Hw ch. assert (w = 0) by (simpl in Hw; lia). subst w. apply (proj2 (Hfs 0 0%Z)).
   - unfold step, step_ok. destruct (panicked s); reflexivity.
-  - intros k v. unfold step, step_ok. destruct (panicked s); [reflexivity|]. rewrite Hb.
+  - intros k v _. unfold step, step_ok. destruct (panicked s); [reflexivity|]. rewrite Hb.
     rewrite (proj1 (Hfs k v)). destruct (Nat.eqb (ccap (outs s k)) 0 && negb (cclosed (outs s k))); reflexivity.
 Qed.
 
-Definition emit_mp_run (tr : list ev) : option state := mp_run c emit_settledb (fun _ => true) (init c) tr.
+Definition emit_mp_run (tr : list ev) : option state := mp_run c all_outs emit_settledb (fun _ => true) (init c) tr.
 
 Lemma emit_mp_run_sound tr s : emit_mp_run tr = Some s -> emit_mp_reachable s.
 Proof.
-  intros H. eapply (mp_run_sound c no_env emit_settledb (fun _ => true)); [| |apply MP_init|exact H].
+  intros H. eapply (mp_run_sound c all_outs no_env emit_settledb (fun _ => true)); [| |apply MP_init|exact H].
   - intros s0 Hm. apply emit_settledb_sound. eapply mp_reachable_reachable; eauto.
   - intros; exact I.
 Qed.
@@ -405,7 +405,7 @@ Definition pace_ex_tr_ff : list ev :=
   [EAdvance 5; EAdvance 6; EW 0 false; EW 0 false; ERcvd 1 7%Z; EW 0 false; EAdvance 100].
 
 Example emit_mp_example :
-  exists s, emit_mp_reachable 3 pace_ex_f true [0; 1] s /\ settled (emit_cfg 3 pace_ex_f true [0; 1]) s /\
+  exists s, emit_mp_reachable 3 pace_ex_f true [0; 1] s /\ settled (emit_cfg 3 pace_ex_f true [0; 1]) all_outs s /\
             now s = 9%N /\ emit_calls s = 3 /\ delivered s 0 = [0; 20]%Z /\ delivered s 1 = [7]%Z.
 Proof.
   destruct (emit_mp_run 3 pace_ex_f true [0; 1] pace_ex_tr) as [s|] eqn:E; [|vm_compute in E; discriminate].
@@ -417,7 +417,7 @@ Proof.
 Qed.
 
 Example emit_mp_example_failfast :
-  exists s, emit_mp_reachable 3 pace_ex_f false [0; 1] s /\ settled (emit_cfg 3 pace_ex_f false [0; 1]) s /\
+  exists s, emit_mp_reachable 3 pace_ex_f false [0; 1] s /\ settled (emit_cfg 3 pace_ex_f false [0; 1]) all_outs s /\
             now s = 100%N /\ wc (ws s 0) = WDone /\ emit_calls s = 2 /\ delivered s 0 = [0]%Z /\ delivered s 1 = [7]%Z.
 Proof.
   destruct (emit_mp_run 3 pace_ex_f false [0; 1] pace_ex_tr_ff) as [s|] eqn:E; [|vm_compute in E; discriminate].
